@@ -179,6 +179,86 @@ def gen_plan(module, cfg, tag, extra_env=None, timeout=1800):
     return outp, n
 
 
+PLAN_OP2PROP = {"add": "C04", "sub": "C04", "neg": "C04", "dbl": "C04", "mul": "C05", "mulbig": "C05", "ell": "C07",
+                "dec": "C02", "enc": "C03", "eq": "C08", "isid": "C08", "conv": "C06", "torque": None, "const": "C06"}
+
+
+def gen_session_plan(nproc=NCPU, num=40, depth=12):
+    """spec -> implementation: TLC simulates SessionPlan.tla (random walks of the API state machine at the real
+    parameters) in `nproc` single-worker processes with different seeds; returns (plan_path, n_behaviours)"""
+    os.makedirs(WORK, exist_ok=True)
+    def one(i):
+        md = os.path.join(WORK, "sp_%d" % i)
+        cmd = ["java", "-Xss1g", "-XX:+UseParallelGC", "-Xmx1500m", "-cp", JAR, "tlc2.TLC", "-workers", "1",
+               "-simulate", "num=%d" % num, "-depth", str(depth + 1), "-seed", str(seed() * 7919 + i), "-metadir", md,
+               "-noGenerateSpecTE", "-config", "cfg/SessionPlan.cfg", "SessionPlan.tla"]
+        try:
+            r = subprocess.run(cmd, cwd=SPEC, capture_output=True, text=True, timeout=1800)
+        finally:
+            shutil.rmtree(md, ignore_errors=True)
+        out = []
+        for l in r.stdout.splitlines():
+            m = re.match(r'<<"PLANJSON", "(.*)">>\s*$', l)
+            if m:
+                out.append(m.group(1).replace('\\"', '"'))
+        if not out:
+            raise ToolError("SessionPlan simulation produced no behaviour:\n" + r.stdout[-2000:])
+        return out
+    with ThreadPoolExecutor(nproc) as ex:
+        res = list(ex.map(one, range(nproc)))
+    path = os.path.join(WORK, "plan_session.ndjson")
+    n = 0
+    with open(path, "w") as f:
+        for out in res:
+            for js in sorted(set(out)):
+                d = json.loads(js)
+                d["steps"].insert(0, {"op": "const", "form": 1, "dst": 1})
+                d["expect"].insert(0, {})
+                d["id"] = n
+                f.write(json.dumps(d, separators=(",", ":")) + "\n")
+                n += 1
+    return path, n
+
+
+def replay_session_plan(c, which, plan):
+    """run `vharness replay` on the plan and compare every step's observation with the specification's"""
+    exe = build(which)
+    r = subprocess.run([exe, "replay", plan], capture_output=True, text=True, timeout=3600)
+    if r.returncode != 0:
+        raise ToolError("harness replay failed: " + r.stderr[-2000:])
+    plans = [json.loads(l) for l in open(plan)]
+    nsteps = 0
+    mism = {}
+    for l in r.stdout.splitlines():
+        g = json.loads(l)
+        pl = plans[g["line"]]
+        for i, (st, ex, got) in enumerate(zip(pl["steps"], pl["expect"], g["got"])):
+            nsteps += 1
+            bad = "panic" in got or any(got.get(k) != v for k, v in ex.items())
+            if bad:
+                prop = PLAN_OP2PROP.get(st["op"])
+                key = (prop, st["op"], st.get("form"))
+                if prop == c.prop:
+                    sg = (which, "plan", st["op"], st.get("form", 0) if st["op"] not in ("eq", "isid", "enc") else st.get("form"))
+                    if sg not in c.viol_sigs:
+                        c.viol_sigs[sg] = 0
+                        p = os.path.join(OUT, c.prop, "splan_%s_%d.json" % (which, len(c.violations)))
+                        json.dump({"behaviour": {"steps": pl["steps"][:i + 1], "expect": pl["expect"][:i + 1]}, "got": g["got"][:i + 1]}, open(p, "w"))
+                        c.violations.append(("[%s build] SessionPlan behaviour %d step %d (%s form %s): implementation %s, specification %s"
+                                             % (which, g["line"], i, st["op"], st.get("form"), json.dumps(got)[:200], json.dumps(ex)[:200]), p, sg))
+                    c.viol_sigs[sg] += 1
+                else:
+                    k2 = "%s:plan:%s" % (prop, st["op"])
+                    c.other[k2] = c.other.get(k2, 0) + 1
+                break      # the rest of this behaviour runs on a diverged state
+    c.events += nsteps
+    c.transitions += nsteps
+    c.states += nsteps
+    c.traces += len(plans)
+    c.forms.add("%s:plan" % which)
+    c.notes.append("SessionPlan (%s): %d TLC-simulated behaviours, %d steps replayed and compared" % (which, len(plans), nsteps))
+
+
 _isqrt_cache = {}
 
 
@@ -237,7 +317,7 @@ KIND2PROP = {
     "gadget": "C13", "lazy_new": "C13", "lazy_op": "C13", "lazy_end": "C13",
     "hint": "C14",
     "shape": "C15", "pubinput": "C15", "groth16": "C15",
-    "blsgen": "C16", "blsmul": "C16", "blspair": "C16", "blsconst": "C16", "blsfrob": "C16", "blsdeser": "C16",
+    "blsgen": "C16", "blsmul": "C16", "blspair": "C16", "blsconst": "C16", "blsfrob": "C16", "blsdeser": "C16", "blspt": "C16",
 }
 
 
